@@ -2,7 +2,8 @@
 # usage: scripts/run.sh <ID> [quick|thorough]   |   scripts/run.sh replay <file>
 # Rebuilds the instrumented overlay and the checker from the current /repo
 # working tree (VERIF_REPO overrides the tree, for scratch worktrees), runs it,
-# and removes all build output.
+# and removes all build output. VERIF_OUT redirects evidence/replays (used when
+# checking scratch worktrees, so that /verif/evidence only ever comes from /repo).
 set -u
 export GOFLAGS=-mod=mod GOPROXY=off GOSUMDB=off GOTOOLCHAIN=local
 ROOT=$(cd "$(dirname "$0")/.." && pwd)
@@ -19,4 +20,4 @@ sed "s#=> /repo#=> $REPO#" "$ROOT/go.mod" > "$W/go.mod"
 cp "$REPO/go.sum" "$W/go.sum"
 go build -modfile="$W/go.mod" -tags verif -overlay "$W/inst/overlay.json" -o "$W/vcheck" ./cmd/vcheck \
   || { echo "HARNESS-ERROR build against $REPO failed"; exit 2; }
-VERIF_ROOT="$ROOT" VERIF_REPO="$REPO" "$W/vcheck" "$@"
+VERIF_ROOT="${VERIF_OUT:-$ROOT}" VERIF_REPO="$REPO" "$W/vcheck" "$@"
